@@ -312,6 +312,14 @@ func (r *Runner) Step(ev M) error {
 		return fmt.Errorf("harness: unknown action %q", a)
 	}
 	rec["res"] = res
+	if a == "CheckTx" && mBool(ev, "reset") && res["ok"] == true {
+		// an admitted CheckTx advanced the check state (sequence): commit an empty block to reset it
+		defer func() {
+			for _, e := range []M{{"a": "BeginBlock", "dt": jsonNum(1000)}, {"a": "EndBlock"}, {"a": "Commit"}} {
+				r.Step(e)
+			}
+		}()
+	}
 	if !r.NoProj {
 		rec["post"] = r.W.Project(r.Tr)
 	}
@@ -319,6 +327,8 @@ func (r *Runner) Step(ev M) error {
 	r.emit(rec)
 	return nil
 }
+
+func jsonNum(n int64) interface{} { return json.Number(fmt.Sprint(n)) }
 
 func trunc(s string) string {
 	if len(s) > 300 {
